@@ -25,7 +25,7 @@ RULE = ("3 of 4 runs: EVSE bench - one generated EVSE (continuous incl. min>0 / 
 PROBES = ["near_boundary_with_ev", "near_boundary_no_ev", "rejected", "accepted_edge", "nan_pilot", "advertised_value",
           "plugin_occupied", "world_invalid_pilot", "world_rejected_with_ev", "min_gt_zero_evse", "inf_max_evse", "advertised_inf_max",
           "finite_without_zero", "finite_unsorted_or_dup", "twin_evses_world", "world_resume_json", "world_advertised_value",
-          "plugin_occupied_same_session_id", "world_party_scribbled_on_handed_info", "rates_given_as_one_shot_iterable", "plugin_occupied_via_network", "plugin_occupied_newcomer_after_occupants_departure", "pilot_sent_through_network", "bench_network_over_64_stations"]
+          "plugin_occupied_same_session_id", "world_party_scribbled_on_handed_info", "rates_given_as_one_shot_iterable", "plugin_occupied_via_network", "plugin_occupied_newcomer_after_occupants_departure", "pilot_sent_through_network", "bench_network_over_64_stations", "plugin_occupied_same_object", "near_duplicate_levels"]
 FAULT_DIMENSION = ("misbehaving scheduler: out-of-set pilot at an arbitrary call of a run (terminal fault, judged on the rejected station); "
                    "scheduler crash + JSON save/load (advertised limits must still be each station's own)")
 REAL_VS_STUB = "real: EVSE, DeadbandEVSE, FiniteRatesEVSE, EV, Battery models, ChargingNetwork, Interface, Simulator; ours: probing party"
@@ -129,7 +129,7 @@ def gen(rs, tier):
         elif k < 0.92:
             ops.append({"op": "advertised"})
         elif k < 0.96 and ev is not None:
-            ops.append({"op": "plugin", "same_id": r.random() < 0.4, "via_network": r.random() < 0.5,
+            ops.append({"op": "plugin", "same_id": r.random() < 0.4, "same_object": r.random() < 0.2, "via_network": r.random() < 0.5,
                         "intr_arrival": r.choice([0, 50, 100, 100, 150])})
         elif ev is not None:
             ops.append({"op": "unplug"})
@@ -271,7 +271,10 @@ def check(sc):
                             # still there: its unplug has not happened); refused all the same
                             intr = sut.EV(ia, ia + 60, sc["ev"]["energy"], "X", "sess%d" % (900 + i), build_battery(sc["ev"]["battery"]))
                             out.probe("plugin_occupied_newcomer_after_occupants_departure" if ia >= 100 else "plugin_occupied")
-                        if op.get("same_id"):
+                        if op.get("same_object"):
+                            intr = cur_ev           # the occupant itself is plugged in a second time (a re-processed plug-in event)
+                            out.probe("plugin_occupied_same_object")
+                        elif op.get("same_id"):
                             # another EV object carrying the occupant's session id (a stale copy, a reloaded record)
                             intr = sut.EV(0, 100, sc["ev"]["energy"], "X", cur_ev.session_id, build_battery(sc["ev"]["battery"]))
                             out.probe("plugin_occupied_same_session_id")
